@@ -15,11 +15,12 @@ CHECKS.append(
               "datatype as read from write_literal's MIR, is included in the Turtle production and in the XSD lexical "
               "space; the local-name check restricted to IRI text is included in PN_LOCAL-without-escapes; prefixes in "
               "PN_PREFIX. Structural rules: raw emission of a lexical form only behind those tests, `prefix:local` only "
-              "from the checked lookup, and the lookup returns (prefix, iri[ns.len()..]) of one entry. Decides the "
+              "from the checked lookup, and the lookup returns (prefix, iri[ns.len()..]) of one entry; write_iri emits only IRI "
+              "syntax (no position-dependent abbreviation); list_item's verdict depends on every class of arc. Decides the "
               "abbreviation guards, not the isomorphism of the round trip.",
          note="Trusted: rustc const-eval/MIR, regex-syntax+regex-automata, Turtle/XSD transcriptions, rio_turtle as the "
               "reader. Not decided: list/inlining/annotation heuristics, rio formatters.",
-         technique="static: DFA language inclusion on regex constants + edge-dominance/def-use rules over MIR"))
+         technique="static: DFA language inclusion on regex constants + path rules with per-path boolean tracking + taint/def-use rules over MIR"))
 CHECKS.append(
     dict(id="C16", level="other", engine="E1+E3",
          text="Every cycle of the resolved workspace call graph is an audited table entry whose class bounds depth by "
@@ -37,9 +38,9 @@ CHECKS.append(
               "field, only lookup/entry access to the owner field, key inserted on every path after the borrow is stored, "
               "borrow taken from the entry's own key; ensure_owned only extends a fresh clone under is_owned(); store "
               "Clone impls field-wise. Decides which code may exist (a necessary condition for memory safety), not a run.",
-         note="Trusted: rustc MIR; std containers. Known limitation: the stores hand out &SimpleTerm<'static>, see "
-              "DESIGN.md C10 (type-level escape, E4 witness planned).",
-         technique="static: MIR unsafe-site enumeration + who-may-call / must-pass-through / derive rules"))
+         note="Trusted: rustc MIR; std containers; rustc's borrow checker for the E4 compile-fail witnesses. Known finding: the "
+              "stores hand out &SimpleTerm<'static> whose clone escapes the store (witness c10_clone_escape, KNOWN_FINDINGS.txt).",
+         technique="static: MIR unsafe-site enumeration + who-may-call / must-pass-through / derive rules + compile-fail witnesses"))
 CHECKS.append(
     dict(id="C19", level="other", engine="E1+E3",
          text="Taint rule over sophia_resource: every file-system call whose path depends on an IRI parameter is "
@@ -62,7 +63,8 @@ CHECKS.append(
               "byte values (pure comparisons), each escaped byte written as the ECHAR that decodes back to it; emission "
               "templates of write_term/write_triple/nt+nq statement closures extracted over all success paths and compared "
               "with the productions; validator languages included in IRIREF/BLANK_NODE_LABEL/LANGTAG (DFA inclusion, all "
-              "strings). Decides what is written, not that the re-parse equals the input.",
+              "strings); the writer constructs no error of its own (never refuses a term). Decides what is written, not that "
+              "the re-parse equals the input.",
          note="Trusted: rustc MIR/const-eval, regex engines, grammar transcriptions, rio_turtle as the independent reader.",
          technique="static: finite predicate evaluation of byte tests + path-template extraction + DFA inclusion"))
 CHECKS.append(
@@ -79,7 +81,8 @@ CHECKS.append(
          text="Error discipline of the stream machinery decided on every path of every function in scope: no Result of a call "
               "is dropped or left behind on an early return; adapter closures call the downstream callback at most once per "
               "item; SourceError never wraps a callback result and SinkError always does; variant-preserving re-wrapping; "
-              "try_for_each_item loops exactly while Ok(true); swapped-out buffers restored on all paths. Decides the "
+              "try_for_each_item loops exactly while Ok(true); swapped-out buffers restored on all paths; item buffers are "
+              "first-in-first-out. Decides the "
               "structural necessary conditions of 'exact prefix, right blame', not the third-party parsers' bookkeeping.",
          note="Trusted: rustc MIR (destination types, resolved callees). A Result handed to another function or stored counts "
               "as delivered.",
@@ -89,9 +92,12 @@ CHECKS.append(
          text="Dispatch tables of the SPARQL engine read from MIR switch tables (variant names): every GraphPattern/Query/"
               "Expression variant matched explicitly, supported ones reach exactly their evaluator, all others reach "
               "NotImplemented with nothing evaluated, FROM NAMED rejected up front; FILTER's keep-iff-truthy chain; binding "
-              "consistency checks guard every insertion; positional DISTINCT key; GRAPH ?g pre-binding; panic audit of the "
-              "evaluator core. Decides these structural clauses, not equality with the algebra's multisets.",
-         note="Trusted: spargebra's algebra; rustc MIR. Function library and numeric tower are listed, not armed.",
+              "consistency checks guard every insertion; positional DISTINCT key; GRAPH ?g pre-binding; SPARQL error semantics in "
+              "eval (|| and && evaluate both operands, no evaluation error turned into a value, no evaluator/dataset Result "
+              "swallowed - one known finding: EXISTS, the active graph threaded unchanged); panic audit of the evaluator core. "
+              "Decides these structural clauses, not equality with the algebra's multisets.",
+         note="Trusted: spargebra's algebra; rustc MIR. Function library and numeric tower are listed, not armed. Known finding: "
+              "EXISTS swallows NotImplemented/dataset errors (KNOWN_FINDINGS.txt).",
          technique="static: path/arm template extraction over MIR switch tables + dominator rules + panic audit"))
 CHECKS.append(
     dict(id="C18", level="other", engine="E1+E3",
@@ -124,7 +130,7 @@ CHECKS.append(
          text="Agreement of every comparison code path: TermKind discriminants/derived order; all ~60 PartialEq/Hash/PartialOrd/Ord "
               "impls on Term types delegate to Term::eq/hash/cmp or are audited single-string wrappers; overrides of Term::eq/cmp/"
               "hash are pure forwards (NsTerm::eq: prefix test AND remainder equality); default eq/cmp/hash name all five kinds and "
-              "hash reads only what eq compares; language tags compared/hashed only through LanguageTag's case-folding impls; "
+              "hash reads only what eq compares, cmp at least what eq compares, no structure-flattening accessor; language tags compared/hashed only through LanguageTag's case-folding impls; "
               "conversions rebuild the same kind from the matching accessor; accessor/kind consistency of all Term impls. Decides "
               "the reduction of the laws to component orders, not the laws on values.",
          note="Trusted: std's str/char comparison and hashing; rustc item facts (derive markers, discriminants) and MIR.",
@@ -136,18 +142,20 @@ CHECKS.append(
               "remove for every ordered set, guarded secondary writes, returned flag; every range scan over the set whose key order "
               "starts with the fixed roles with covering bounds; every non-fixed role filtered by its own matcher on its own "
               "position; results re-ordered to (g,[s,p,o]); unknown constants touch no set; matching-iterator caches; constant() "
-              "contract of all matcher impls; bulk-operation counters. Decides these structural necessary conditions for all "
+              "contract of all matcher impls; bulk-operation counters; index-full reported before any mutation; index sets "
+              "written only by insert/remove. Decides these structural necessary conditions for all "
               "pattern shapes and index widths, not BTreeSet/Term::eq themselves nor result equality across implementations.",
          note="Trusted: rustc MIR; the role-preserving callee list and iterator summaries in rules/roles.py; BTreeSet/HashMap.",
-         technique="static: abstract interpretation (role propagation) over MIR + dominator rules"))
+         technique="static: abstract interpretation (role propagation) over MIR + dominator / who-may-write rules + compile-fail witness"))
 CHECKS.append(
     dict(id="C07", level="other", engine="E1+E3",
          text="The blank-blind comparison never reaches the label-sensitive Term::eq/cmp when both sides are quoted triples or both "
               "blank nodes (reachability under the kind assumption, over every comparison impl of IsoTerm and the helpers they "
               "call) and recurses component-wise; eq_gn's decision table; early Ok(false) exits, same sort on both sides, helpers "
               "applied to both arguments, Source/Sink blame, verdict = equality of colour histograms; colour = XOR over an ordered "
-              "set with no order-dependent step. Decides these structural clauses, not hash-collision freedom or completeness of "
-              "the refinement.",
+              "set with no order-dependent step; atomic ground terms compared as whole terms; the colour hash recurses into every "
+              "quoted triple; IsoTerm quads never de-duplicated. Decides these structural clauses, not hash-collision freedom or "
+              "completeness of the refinement.",
          note="Trusted: rustc MIR; std sort/hash.",
          technique="static: assumption-guided CFG reachability + decision-table extraction over MIR"))
 CHECKS.append(
@@ -163,7 +171,8 @@ CHECKS.append(
     dict(id="C06", level="other", engine="E1+E3",
          text="The canonical N-Quads escaping table read from _cnq::nq's character switch and format template (upper-case \\uXXXX), "
               "the safeguards' dataflow (compared only, failing with ToxicGraph), unsupported input rejected before any quad is "
-              "recorded with the closed set of error variants, and a panic audit of the canonicalisation functions. Decides these "
+              "recorded with the closed set of error variants, every related blank node occurrence appended in Hash N-Degree Quads, "
+              "and a panic audit of the canonicalisation functions. Decides these "
               "clauses, not equality with the W3C algorithm's hashes/paths.",
          note="Trusted: the RDF 1.2 canonical N-Quads escape table in rules/c06.py; sha2; audited panic table.",
          technique="static: switch-table/format-template extraction + taint of safeguard reads + dominator rules + panic audit"))
